@@ -81,6 +81,9 @@ type Family struct {
 	MacroEnv bool
 	// OnPath is called for every complete explored state with its path (lasso detection etc.)
 	StateOracle func(scn *Scenario, path []Step, canonPath []string, w *world.World) []engine.Violation
+	// Extra runs once in the parent process: additional exhaustive sub-checks of the same property
+	// whose coverage and violations are merged into the family's evidence.
+	Extra func(tier string) (map[string]any, []engine.Violation)
 	// Vacuity inspects the summed oracle counters; a non-empty string aborts the check with exit 2.
 	Vacuity func(extra map[string]int) string
 }
